@@ -8,8 +8,10 @@ import (
 	"errors"
 	"fmt"
 	"math"
+	"runtime"
 	"runtime/debug"
 	"sync"
+	"sync/atomic"
 
 	"github.com/kelindar/column"
 	"github.com/kelindar/column/commit"
@@ -24,16 +26,31 @@ type recLogger struct {
 	commits []commit.Commit
 	seq     []int64 // arrival sequence numbers
 	next    int64
+	// failEvery > 0: every failEvery-th Append reports an error after having recorded the commit (a
+	// logger that fails is still a logger the commit was emitted to)
+	failEvery int64
+	// yieldEvery > 0: every yieldEvery-th Append yields the processor first, as a slow writer would
+	yieldEvery int64
+	calls      int64
 }
 
+var errLoggerFault = errors.New("injected logger fault")
+
 func (l *recLogger) Append(c commit.Commit) error {
+	if l.yieldEvery > 0 && atomic.AddInt64(&l.calls, 1)%l.yieldEvery == 0 {
+		runtime.Gosched()
+	}
 	cl := c.Clone()
 	cl.ID = c.ID // Clone is not required by any property to keep the id; the channel path is checked separately
 	l.mu.Lock()
 	l.commits = append(l.commits, cl)
 	l.next++
 	l.seq = append(l.seq, l.next)
+	fail := l.failEvery > 0 && l.next%l.failEvery == 0
 	l.mu.Unlock()
+	if fail {
+		return errLoggerFault
+	}
 	return nil
 }
 
